@@ -74,6 +74,12 @@ struct Access {
         }
         return nullptr;
     }
+    // the legacy classes also offer a member at(index array): it must address the same element as operator()
+    static const E* elem_at(const A& a, const Shape& idx) {
+        if constexpr (Tr::family == LEGACY_HYBRID) { typename A::shape_type i{}; for (size_t k = 0; k < idx.size(); k++) i[k] = idx[k]; return &a.at(i); }
+        else if constexpr (Tr::family == LEGACY_DYNAMIC) { std::vector<size_t> i(idx.begin(), idx.end()); return &a.at(i); }
+        else { (void)a; (void)idx; return nullptr; }
+    }
     static Shape shape(const A& a) { return to_vec(a.shape()); }
     static Shape strides(const A& a) { return to_vec(a.strides()); }
     static size_t size(const A& a) {
@@ -402,6 +408,10 @@ struct ArrTarget : Target {
                 const E* q; { Sut x; q = Acc::celem(a, idx); }
                 if (!q) break;
                 long off = (long)(q - d);
+                if constexpr (Tr::family == LEGACY_HYBRID || Tr::family == LEGACY_DYNAMIC) {
+                    const E* q2; { Sut x; q2 = Acc::elem_at(a, idx); }
+                    if (q2 != q) { env->violation("LAYOUT", who + ": at(" + shape_str(idx) + ") addresses buffer offset " + std::to_string((long)(q2 - d)) + " but operator() addresses offset " + std::to_string(off)); return; }
+                }
                 if (off != (long)dot(idx, lay)) { env->violation("LAYOUT", who + ": element " + shape_str(idx) + " lives at buffer offset " + std::to_string(off) + ", the " + (Tr::col_major ? "column" : "row") + "-major layout of " + shape_str(sh) + " puts it at " + std::to_string(dot(idx, lay))); return; }
                 if (m.val[f] && std::memcmp(q, &*m.val[f], sizeof(E)) != 0) { env->violation("CONTENT", who + ": element " + shape_str(idx) + " differs from the last value written there"); return; }
             }
